@@ -6,7 +6,8 @@ EXTENDS RouterApi, Json
 CONSTANTS HLEN, MAXSTEPS,
           PACE      \* 0: unrestricted; k > 0: sampling schedule -- with transactions on, every k-th call is processTransaction()
 VARIABLE hist
-RectCat == {<<2, 2, 6, 6>>, <<4, 4, 8, 10>>, <<8, 2, 12, 6>>, <<2, 8, 10, 12>>, <<6, 6, 8, 8>>}
+\* (<<6, 0, 8, 10>> butts between <<2, 2, 6, 6>> and <<8, 2, 12, 6>>: their corners lie inside its vertical sides -- a shape added between two touching neighbours)
+RectCat == {<<2, 2, 6, 6>>, <<4, 4, 8, 10>>, <<8, 2, 12, 6>>, <<2, 8, 10, 12>>, <<6, 6, 8, 8>>, <<6, 0, 8, 10>>}
 ResizeCat == {<<4, 4, 8, 10>>, <<6, 6, 8, 8>>, <<2, 2, 6, 6>>}     \* few targets, so that simulation does not spend most calls on resizes
 Moves   == {<<2, 0>>, <<-2, 0>>, <<0, 2>>, <<0, -4>>, <<4, 4>>}
 PtCat   == {<<13, 13>>, <<1, 7>>, <<7, 1>>}
